@@ -156,6 +156,13 @@ func Param(name string) int {
 	return v
 }
 
+func ParamOr(name string, def int) int {
+	if v, ok := rp.Params[name]; ok {
+		return v
+	}
+	return def
+}
+
 // CatchPanic runs f and reports whether it panicked.
 func CatchPanic(f func()) (panicked bool) {
 	defer func() {
